@@ -35,7 +35,7 @@ fn recover_case<P: G>(cfg: Cfg, name: String, wit: Wit, ctx: Ctx, rng: &'static 
     case(format!("{}/{}/{}", P::NAME, cfg.key(), name), move |_v| {
         fg::clear_intern();
         let mut res = CaseResult::new("recovered");
-        let built = build_cached::<P>(&cfg, &wit).expect("valid");
+        let built = build_cached::<P>(&cfg, &wit).honest();
         let proof = match lib_prove(&built, &ctx, &mut HRng::from_model(rng)) {
             Ok(p) => p,
             Err(_) => {
@@ -122,8 +122,8 @@ fn batch_templates<P: G>(n: usize, d: usize, depth: usize) -> BTemplates<P> {
                 },
             };
             let ctx = contexts()[pos % 6];
-            let built = build_cached::<P>(&cfg, &wit).unwrap();
-            let proof = lib_prove(&built, &ctx, &mut HRng::chacha(50 + pos as u64)).unwrap();
+            let built = build_cached::<P>(&cfg, &wit).honest();
+            let proof = lib_prove(&built, &ctx, &mut HRng::chacha(50 + pos as u64)).honest();
             row.push(BMember {
                 statement: built.statement.clone(),
                 proof,
@@ -140,7 +140,10 @@ fn batch_templates<P: G>(n: usize, d: usize, depth: usize) -> BTemplates<P> {
 }
 
 fn batch_cases<P: G>(n: usize, d: usize, depth: usize) -> Vec<Box<dyn Case>> {
-    let tpl = Arc::new(batch_templates::<P>(n, d, depth));
+    let tpl = match honest_scope(|| batch_templates::<P>(n, d, depth)) {
+        Some(t) => Arc::new(t),
+        None => return Vec::new(),
+    };
     let mut cases: Vec<Box<dyn Case>> = Vec::new();
     let mut frontier: Vec<Vec<usize>> = vec![vec![]];
     for _ in 0..depth {
@@ -237,8 +240,8 @@ fn long_batch_case_layout<P: G>(len: usize, d: usize, layout: &'static str) -> B
                 seed: if kind == "seeded" { Some(seed_scalar(20 + (pos % 3) as u64)) } else { None },
             };
             let ctx = contexts()[pos % 6];
-            let built = build_cached::<P>(&cfg, &wit).unwrap();
-            proofs.push(lib_prove(&built, &ctx, &mut HRng::chacha(pos as u64)).unwrap());
+            let built = build_cached::<P>(&cfg, &wit).honest();
+            proofs.push(lib_prove(&built, &ctx, &mut HRng::chacha(pos as u64)).honest());
             sts.push(built.statement.clone());
             ctxs.push(ctx);
             expect.push(wit.seed.map(|_| wit.blindings[0].clone()));
